@@ -30,6 +30,8 @@ Cert(n) == CASE n = "A" -> [sid |-> "A", key |-> "k1"] [] n = "B" -> [sid |-> "B
              [] n = "Ac" -> [sid |-> "A", key |-> "kec"]     \* ... with an ECDSA P-256 key
              [] n = "E3" -> [sid |-> "E3", key |-> "ke3"]    \* a certificate whose RSA key has public exponent 3 (signer infos "made" with key
                                                               \* "forge_e3" carry octets computed without any private key: a cube root, see the harness)
+             [] n = "S3" -> [sid |-> "S3", key |-> "k1"]     \* certificates that were themselves issued with sha384WithRSA / sha512WithRSA:
+             [] n = "S5" -> [sid |-> "S5", key |-> "k2"]     \* that says nothing about the signatures their keys make
              [] n = "Ca" -> [sid |-> "Ca", key |-> "k3"]     \* a certificate issued by a CA: its issuer name differs from its subject name;
                                                               \* a signer id "CaSub" carries that certificate's SUBJECT name with its serial number
 CertNames == {"A", "B", "At", "Ae", "Ac", "Ca"}
@@ -56,7 +58,7 @@ HonestSigner(n, ct, content) == [sid |-> Cert(n).sid, sigKey |-> Cert(n).key, si
                                  ctattr |-> ct, md |-> content, order |-> "canonical", alg |-> "sha256", unauth |-> "none"]
 IsHonest(b, s) == /\ s.alg = "sha256" /\ s.unauth = "none" /\ s.attrs = "present" /\ s.sigOver = "attrs_as_encoded" /\ s.order = "canonical" /\ s.ctattr = b.ct
                   /\ (b.content # "none" => s.md = b.content) /\ s.md \notin {"junk", "absent"}
-                  /\ \E n \in CertNames \cup {"E3"} : s.sid = Cert(n).sid /\ s.sigKey = Cert(n).key
+                  /\ \E n \in CertNames \cup {"E3", "S3", "S5"} : s.sid = Cert(n).sid /\ s.sigKey = Cert(n).key
 
 (* three-valued expectation for an implementation's Verify(blob, cert) *)
 Expect(b, c) == IF ~RFCVerify(b, c) THEN "must_not"
